@@ -316,3 +316,130 @@ func genCfgCase(r *common.Rng) string {
 		pick([]string{"-", "-", "0", "-1", "-60000000", "1", "1", "60000000", "3600000000000"}) + "," +
 		pick([]string{"-", "-", "0", "-1", "-7", "1", "1", "2", "50", "50000"})
 }
+
+// ---- shut: Shutdown with accepted operations still queued / in an open batch ----
+//
+//   C02 shut Z<size> <ops> => res=<o|r|e per op> fin=<list after Shutdown and a restart on the same datastore>
+//   ops: P<k>.<v> (LogPin of cid k, name "v<v>") / U<k> (LogUnpin); age limit 1h, queue 50.
+// The harness waits until the worker has taken everything (queue empty + a pause) before Shutdown, so what is
+// lost is exactly the open batch.
+
+var shutSeq int64
+var shutMu sync.Mutex
+
+func runShut(emit func(string), cfgW, script string) {
+	size, err := strconv.Atoi(strings.TrimPrefix(cfgW, "Z"))
+	if !strings.HasPrefix(cfgW, "Z") || err != nil || size < 1 || size > 9 {
+		emit("# malformed shut case: cfg " + cfgW)
+		return
+	}
+	shutMu.Lock()
+	shutSeq++
+	seed := fmt.Sprintf("shut-%d", shutSeq)
+	shutMu.Unlock()
+	idOf := func(int) string { return seed }
+	p, err := newPeer(peerCfg{seed: seed, trustAll: true, maxSize: size, maxAge: time.Hour, queue: 50, idOf: idOf}, newValTable(nil))
+	if err != nil {
+		emit(fmt.Sprintf("# inconclusive shut setup: %v", err))
+		return
+	}
+	ctx := context.Background()
+	var res []byte
+	for _, st := range strings.Split(script, ";") {
+		if st == "" {
+			continue
+		}
+		var e error
+		switch {
+		case st[0] == 'P':
+			f := strings.Split(st[1:], ".")
+			k, ok := 0, false
+			if len(f) == 2 {
+				k, ok = small(f[0])
+			}
+			v, e2 := strconv.Atoi(f[len(f)-1])
+			if !ok || e2 != nil || v < 0 || v > 9 {
+				p.close()
+				emit("# malformed shut case: step " + st)
+				return
+			}
+			pin := api.PinCid(common.CidN(k))
+			pin.Name = "v" + strconv.Itoa(v)
+			e = p.cc.LogPin(ctx, pin)
+		case st[0] == 'U':
+			k, ok := small(st[1:])
+			if !ok {
+				p.close()
+				emit("# malformed shut case: step " + st)
+				return
+			}
+			e = p.cc.LogUnpin(ctx, api.PinCid(common.CidN(k)))
+		default:
+			p.close()
+			emit("# malformed shut case: step " + st)
+			return
+		}
+		switch {
+		case e == nil:
+			res = append(res, 'o')
+		case strings.Contains(e.Error(), ccrdt.ErrMaxQueueSizeReached.Error()):
+			res = append(res, 'r')
+		default:
+			res = append(res, 'e')
+		}
+	}
+	for i := 0; i < 400 && p.cc.VerifQueueLen() > 0; i++ {
+		time.Sleep(5 * time.Millisecond)
+	}
+	time.Sleep(150 * time.Millisecond)
+	store := p.store
+	p.close()
+	q, err := newPeer(peerCfg{seed: seed, trustAll: true, queue: 50, idOf: idOf, store: store}, newValTable(nil))
+	if err != nil {
+		emit(fmt.Sprintf("# inconclusive shut restart: %v", err))
+		return
+	}
+	fin := "-"
+	func() {
+		c2, c := context.WithTimeout(ctx, 10*time.Second)
+		defer c()
+		st, err := q.cc.State(c2)
+		if err != nil {
+			fin = "stateerr"
+			return
+		}
+		pins, err := st.List(c2)
+		if err != nil {
+			fin = "listerr"
+			return
+		}
+		var l []string
+		for _, pin := range pins {
+			l = append(l, hookCid(pin.Cid)+"."+hookName(pin))
+		}
+		sort.Strings(l)
+		if len(l) > 0 {
+			fin = strings.Join(l, ",")
+		}
+	}()
+	q.close()
+	r := string(res)
+	if r == "" {
+		r = "-"
+	}
+	emit(fmt.Sprintf("C02 shut %s %s => res=%s fin=%s", cfgW, script, r, fin))
+}
+
+func genShutCase(r *common.Rng) (string, string) {
+	size := []int{1, 2, 3, 5}[r.Intn(4)]
+	n := r.Range(1, 7)
+	var st []string
+	for i := 0; i < n; i++ {
+		if r.Chance(1, 3) {
+			st = append(st, fmt.Sprintf("U%d", r.Intn(3)))
+		} else {
+			st = append(st, fmt.Sprintf("P%d.%d", r.Intn(3), r.Intn(10)))
+		}
+	}
+	return fmt.Sprintf("Z%d", size), strings.Join(st, ";")
+}
